@@ -107,8 +107,9 @@ Rich == <<L1, P1, M1, D1, S1, R1, P2>>
 VARIABLE v
 SingleVectors == {[first |-> None, h |-> HeaderFor(s), opts |-> s] : s \in Lists(MaxLen)}
                  \cup {[first |-> None, h |-> Headers[i], opts |-> o] : i \in 1..Len(Headers), o \in {<<>>, Rich}}
-UpdateVectors == {[first |-> [h |-> Headers[2], opts |-> f], h |-> HeaderFor(s), opts |-> s] :
-                     f \in {<<>>, Rich}, s \in Lists(MaxSecond)}
+\* macChange: the second advertisement comes from another Ethernet source (a router whose MAC changes)
+UpdateVectors == {[first |-> [h |-> Headers[2], opts |-> f], h |-> HeaderFor(s), opts |-> s, macChange |-> mc] :
+                     f \in {<<>>, Rich}, s \in Lists(MaxSecond), mc \in BOOLEAN}
 Init == v \in IF Part = "single" THEN SingleVectors ELSE UpdateVectors
 Next == UNCHANGED v
 Spec == Init /\ [][Next]_v
@@ -119,7 +120,7 @@ WalkTerminates == Len(v.opts) <= (IF Part = "single" THEN 7 ELSE MaxSecond)
 Vector ==
   LET firstRef == IF v.first = None THEN None
                   ELSE [ref |-> RefOf(v.first.h, v.first.opts), mayDrop |-> MayDrop(v.first.opts)]
-  IN [first |-> v.first, h |-> v.h, opts |-> v.opts,
+  IN [first |-> v.first, h |-> v.h, opts |-> v.opts, macChange |-> ("macChange" \in DOMAIN v /\ v.macChange),
       ref |-> RefOf(v.h, v.opts), mayDrop |-> MayDrop(v.opts), firstRef |-> firstRef]
 Export == PrintT(ToJson(Vector))
 =============================================================================
